@@ -106,8 +106,12 @@ func runSemScenario(sc semScenario, id int, settle, slack int) []semLine {
 			t0 := time.Now()
 			sem.Terminate()
 			r.log(semLine{"op": "ret", "g": 0, "ok": true, "el": int(time.Since(t0) / time.Millisecond)})
-		case "sleep":
-			time.Sleep(semSleepMs * time.Millisecond)
+		case "sleep": // for a sleep step `timeout` is its length in ms (0: the default)
+			ms := semSleepMs
+			if st.Timeout > 0 {
+				ms = st.Timeout
+			}
+			time.Sleep(time.Duration(ms) * time.Millisecond)
 		}
 		settled()
 	}
@@ -186,7 +190,13 @@ func CmdSemRun(args []string) int {
 	stats := map[string]int{"scenarios": len(scens)}
 	for _, ls := range results {
 		blocked := map[int]bool{}
+		wokenBefore := map[int]bool{} // callers that were blocked while a Release returned
 		for _, l := range ls {
+			if l["op"] == "call" && l["fn"] == "rel" {
+				for g := range blocked {
+					wokenBefore[g] = true
+				}
+			}
 			if l["op"] == "settled" && len(blocked) >= 2 {
 				stats["settled_with_two_or_more_blocked_callers"]++
 			}
@@ -221,6 +231,9 @@ func CmdSemRun(args []string) int {
 						stats["acquire_granted_at_once"]++
 					case el >= 25:
 						stats["acquire_refused_after_waiting"]++
+						if wokenBefore[g] {
+							stats["acquire_refused_after_being_woken_by_a_release"]++
+						}
 					default:
 						stats["acquire_refused_at_once"]++
 					}
